@@ -15,6 +15,12 @@ func VerifC14AggParams() {
 	InitMetrics()
 	interval := uint(verifUint16("interval"))
 	wait := uint(verifUint16("wait"))
+	if verifParam("wide") == "1" {
+		// all 64-bit values: numbers of seconds that do not fit in a time.Duration wrap around in
+		// time.Duration(n)*time.Second (a multiple of 2^55 seconds becomes a tick period of exactly 0)
+		interval = uint(verifUint64("interval64"))
+		wait = uint(verifUint64("wait64"))
+	}
 	m, err := matcher.New("", "", "", "", verifParam("regex"), "")
 	if err != nil {
 		return
